@@ -1,5 +1,5 @@
 //@ assume: pool sizes, configuration limits and the transaction's shifted_fee / accept_fee are abstract (uninterpreted accessors); shifted_fee and accept_fee themselves are covered on the real code in C14/weights (Kani)
-//@ assume: decided here: TransactionPool::is_acceptable admits a transaction only if it pays at least the minimum fee for its weight (shifted_fee >= accept_fee) and the pool (and, for stem transactions, the stempool) is within capacity; joint validity against the chain, reconciliation and eviction are history properties (DESIGN 6 C14)
+//@ assume: decided here: TransactionPool::is_acceptable admits a transaction only if it pays at least the minimum fee for its weight (shifted_fee >= accept_fee) and the pool (and, for stem transactions, the stempool) is within capacity; a low-fee transaction is refused as LowFeeTransaction whatever the pool's fill level, so the OverCapacity answer -- which add_to_pool turns into 'admit and evict' -- is only ever given to a transaction that pays the minimum fee (finding F8); joint validity against the chain, reconciliation and eviction are history properties (DESIGN 6 C14)
 //@ assumed_items: 6
 //@ fns: TransactionPool::is_acceptable
 global size_of usize == 8;
@@ -34,6 +34,8 @@ impl TransactionPool {
 //@+        && self.txpool.sp_size() <= self.config.max_pool_size
 //@+        && (stem ==> self.stempool.sp_size() <= self.config.max_stempool_size),
 //@+    (sp_shifted_fee(*tx) < sp_accept_fee(*tx)) ==> r.is_err(),
+//@+    r matches Err(PoolError::OverCapacity) ==> sp_shifted_fee(*tx) >= sp_accept_fee(*tx),
+//@+    (sp_shifted_fee(*tx) < sp_accept_fee(*tx)) ==> r matches Err(PoolError::LowFeeTransaction(_)),
 //@ end
 }
 //@ canary is_acceptable: r.is_err()
